@@ -22,6 +22,7 @@ impl<'l, Data> EventLoop<'l, Data> {
 //@ rw R12 * <<Duration::ZERO>> => <<crate::ext_dur::duration_zero()>>
 //@ rw R11 1 <<for source in &mut *extra_lifecycle_sources.values>> => <<for source in lit: extra_lifecycle_sources.values.iter()>>
 //@ rw R13 1 <<Ok(events) => break events,>> => <<Ok(events) => { return Ok(()); }>>
+//@ rw R13 1 <<let events =>> => <<let events: Vec<PollEvent> =>>
 //@ rw R10 1 <<self .handle .inner .sources_with_additional_lifecycle_events .borrow_mut()>> => <<extra_cell>>
 //@ rw R10 1 <<&self.handle.inner.sources.borrow()>> => <<sources_cell>>
 //@ rw R10 1 <<self.handle.inner.poll.borrow()>> => <<poll_cell>>
@@ -106,6 +107,7 @@ fn before_sleep_and_wait(&mut self, extra_cell: &AdditionalLifecycleEventsSet, s
 //@ rw R12 * <<Duration::ZERO>> => <<crate::ext_dur::duration_zero()>>
 //@ rw R11 1 <<for source in &mut *extra_lifecycle_sources.values>> => <<for source in lit: extra_lifecycle_sources.values.iter()>>
 //@ rw R13 1 <<Ok(events) => break events,>> => <<Ok(events) => { return Ok(()); }>>
+//@ rw R13 1 <<let events =>> => <<let events: Vec<PollEvent> =>>
 //@ rw R10 1 <<self .handle .inner .sources_with_additional_lifecycle_events .borrow_mut()>> => <<extra_cell>>
 //@ rw R10 1 <<&self.handle.inner.sources.borrow()>> => <<sources_cell>>
 //@ rw R10 1 <<self.handle.inner.poll.borrow()>> => <<poll_cell>>
